@@ -5,6 +5,7 @@ import (
 	"math/big"
 	"reflect"
 	"sort"
+	"strconv"
 	"strings"
 
 	"github.com/zclconf/go-cty/cty"
@@ -106,6 +107,43 @@ type Named struct {
 	M map[string]MyInt `cty:"m"`
 }
 
+// Two pairs of DIFFERENT struct types that print the same reflect.Type.String() ("c18.Rec", "c18.Pos"): types
+// declared inside functions share their name. Anything keyed by the printed type name instead of the
+// reflect.Type itself (a cache of tag indices, say) confuses the members of a pair.
+func localRecA() reflect.Type {
+	type Rec struct {
+		A string `cty:"a"`
+		B int    `cty:"b"`
+	}
+	return typeOf[Rec]()
+}
+
+func localRecB() reflect.Type {
+	type Rec struct {
+		B int     `cty:"b"`
+		X bool    `cty:"x"`
+		A string  `cty:"a"`
+		Y float64 `cty:"y"`
+	}
+	return typeOf[Rec]()
+}
+
+func localPosA() reflect.Type {
+	type Pos struct {
+		Name string `cty:"name"`
+		N    int8   `cty:"n"`
+	}
+	return typeOf[Pos]()
+}
+
+func localPosB() reflect.Type {
+	type Pos struct {
+		N    int8   `cty:"n"`
+		Name string `cty:"name"`
+	}
+	return typeOf[Pos]()
+}
+
 type entry struct {
 	name     string
 	t        reflect.Type
@@ -191,6 +229,12 @@ func family() []entry {
 	add(typeOf[PtrNums]())
 	add(typeOf[[]Inner]())
 	add(typeOf[map[string]*Outer]())
+	// same printed name, different types (see localRecA)
+	add(localRecA())
+	add(localRecB())
+	add(localPosA())
+	add(localPosB())
+	add(reflect.SliceOf(localRecB()))
 	// embedded dynamic values
 	add(typeOf[cty.Value]())
 	add(typeOf[WithDyn]())
@@ -219,8 +263,13 @@ func family() []entry {
 	addX(typeOf[*Tup](), shapeType(typeOf[Tup]()))
 	addX(typeOf[TupNest](), cty.Tuple([]cty.Type{shapeType(typeOf[Inner]()), shapeType(typeOf[Tup]())}))
 
+	seen := map[string]int{}
 	for i := range f {
 		f[i].name = f[i].t.String()
+		seen[f[i].name]++
+		if n := seen[f[i].name]; n > 1 {
+			f[i].name += "#" + strconv.Itoa(n) // a second type that prints the same name
+		}
 		f[i].plain = !hasLeaf(f[i].t, func(t reflect.Type) bool {
 			return t == gen.GoCtyValueType || t == gen.GoBigIntType || t == gen.GoBigFloatType
 		})
